@@ -34,10 +34,10 @@ Definition frame_sec (l : list bytes) : list N := lenN l :: flat_map (fun b => l
 
 Definition model_out (g : gen_case) : list N :=
   let '(s, k, c) := g in
-  let t := canon_tx sha rip s k c in
-  let hts := htlc_txs sha rip s k c in
+  let t := bolt3_tx sha rip s k c in
+  let hts := bolt3_htlc_txs sha rip s k c in
   flat_map frame_sec
-    [ [ser_tx t]; [canon_funding_script s]; canon_ws sha rip s k c;
+    [ [ser_tx t]; [canon_funding_script s]; bolt3_ws sha rip s k c;
       match hts with Some l => map (fun x => ser_tx (fst (fst x))) l | None => [] end;
       [[if hts then 1 else 0]] ].
 
@@ -45,10 +45,10 @@ Definition model_out (g : gen_case) : list N :=
     cross-checks rust-bitcoin's sighash implementation used by the harness *)
 Definition model_digests (g : gen_case) : list N :=
   let '(s, k, c) := g in
-  let t := canon_tx sha rip s k c in
+  let t := bolt3_tx sha rip s k c in
   flat_map frame_sec
     [ [txid_of sha t]; [commit_sighash sha s t];
-      match htlc_txs sha rip s k c with
+      match bolt3_htlc_txs sha rip s k c with
       | Some l => map (htlc_sighash sha s) l
       | None => []
       end ].
@@ -220,13 +220,13 @@ Definition case_env (cc : ccase) : (bytes -> bytes) * (bytes -> bytes) * (tx * l
   let s := cc_setup cc in
   let k := cc_keys cc in
   let c := cc_content cc in
-  let ws := canon_ws sha rip s k c in
+  let ws := bolt3_ws sha rip s k c in
   let tbl := memo_table (ws ++ [k_revocation k; s_holder_payment s]) in
   let sh := sha_memo tbl in
   let rtbl := map (fun x => (x, ripemd160 x))
                   (sh (k_revocation k) :: sh (s_holder_payment s)
                    :: map h_hash (c_offered c ++ c_received c)) in
-  (sh, rip_memo rtbl, (canon_tx sh rip s k c, ws)).
+  (sh, rip_memo rtbl, (bolt3_tx sh rip s k c, ws)).
 
 (** indices of the mutants on which model and implementation differ *)
 Definition bad_mutants (cc : ccase) : list N :=
